@@ -608,7 +608,9 @@ struct Judge {
     const char* forced = nullptr;
     bool isUlpWindow(const Traj& T, double tLow, double tHigh) const {
         const double E = 1e-13 * std::max(1.0, std::fabs(tHigh));
-        return zeroWitnessRestart(T, tHigh) && tLow < T.ts && T.ts - tLow <= E && tHigh >= T.ts && tHigh - T.ts <= E;
+        // both window ends within roundoff of the restart time and at least one of them before it (the window may
+        // even be inverted by a few ulps: tLow == restart time, tHigh 5e-15 earlier -- seen at seed 9)
+        return zeroWitnessRestart(T, std::max(tHigh, T.ts)) && std::fabs(tLow - T.ts) <= E && std::fabs(tHigh - T.ts) <= E && (tLow < T.ts || tHigh < T.ts);
     }
     const char* attribute(const Traj& T, double t) const {
         if (!isCPodes(sc.ik)) return nullptr;
